@@ -427,7 +427,9 @@ func (w *World) epilogueSunset(primary *Instance) {
 		if ops := w.liveParked(); len(ops) > 0 {
 			op := ops[0]
 			pp := op.Payload.(*pendingOp)
-			w.apply(w.insts[op.Inst], op.Inc, op.Kind, op.Key, pp, true)
+			if op.Kind != "cache" {
+				w.apply(w.insts[op.Inst], op.Inc, op.Kind, op.Key, pp, true)
+			}
 			sim.Release(op, core.OutOK)
 			continue
 		}
